@@ -704,7 +704,46 @@ pub mod fam {
     /// inner loop inside the capture?) - `loop.*` read inside a capture inside the loop body.
     pub fn f2_items(_thorough: bool) -> u64 {
         let n = loop_cfgs().len() as u64;
-        n + n * n + n * F2_CAPTURES.len() as u64 * 2
+        n + n * n + n * F2_CAPTURES.len() as u64 * 2 + n
+    }
+
+    /// Containers holding an undefined value (only / first / middle / last element): an element of
+    /// a container can itself be undefined (`[m.nope]` in a template, `Value::undefined()` through
+    /// the API) and is still something to iterate. Seeded change C03-10 derived "did the loop
+    /// iterate" from the current element being defined.
+    pub fn iterables_with_undefined() -> Vec<(&'static str, V)> {
+        vec![
+            ("array-undef", V::Arr(vec![V::Undef])),
+            ("array-undef", V::Arr(vec![V::I64(1), V::Undef])),
+            ("array-undef", V::Arr(vec![V::Undef, V::I64(1)])),
+            ("array-undef", V::Arr(vec![V::I64(1), V::Undef, V::I64(3)])),
+            ("array-undef", V::Arr(vec![V::Undef, V::I64(2), V::Undef])),
+            ("map-undef", V::map(&[("k1", V::Undef)])),
+            ("map-undef", V::map(&[("k1", V::s("v1")), ("k2", V::Undef)])),
+            ("map-undef", V::map(&[("k1", V::Undef), ("k2", V::s("v2"))])),
+        ]
+    }
+
+    /// Every bare print of `var` becomes `{{ var | default(value="u") }}`.
+    fn soften(stmts: Vec<Stmt>, var: &str) -> Vec<Stmt> {
+        stmts
+            .into_iter()
+            .map(|st| match st {
+                Stmt::Print(Expr::Var(n)) if n == var => Stmt::Print(Expr::default(Expr::var(var), "u")),
+                Stmt::If { arms, else_body } => Stmt::If {
+                    arms: arms.into_iter().map(|(c, b)| (c, soften(b, var))).collect(),
+                    else_body: else_body.map(|b| soften(b, var)),
+                },
+                Stmt::For { key, var: v, iter, body, else_body } => Stmt::For {
+                    key,
+                    var: v,
+                    iter,
+                    body: soften(body, var),
+                    else_body: else_body.map(|b| soften(b, var)),
+                },
+                other => other,
+            })
+            .collect()
     }
 
     pub fn f2_decode(item: u64, _thorough: bool, emit: &mut Emit<'_>) {
@@ -720,6 +759,17 @@ pub mod fam {
                 .collect();
             let tag = format!("{}{}", jump_tag(cfg), if cfg.kv { "/kv" } else { "" });
             emit(Group { program: &program, bindings: &bindings, tag: &tag, detail: &format!("{cfg:?}") });
+            return;
+        }
+        if item >= n + n * n + n * F2_CAPTURES.len() as u64 * 2 {
+            let cfg = cfgs[(item - (n + n * n + n * F2_CAPTURES.len() as u64 * 2)) as usize];
+            let program = Program::single(soften(f2_single(cfg), "x1")).with_variants();
+            let bindings: Vec<Bindings> = iterables_with_undefined()
+                .iter()
+                .map(|(class, v)| Bindings::ctx_only(vec![b("it", v.clone())], class))
+                .collect();
+            let tag = format!("undefined-elements/{}{}", jump_tag(cfg), if cfg.kv { "/kv" } else { "" });
+            emit(Group { program: &program, bindings: &bindings, tag: &tag, detail: &format!("{cfg:?} element printed through default") });
             return;
         }
         if item >= n + n * n {
